@@ -362,6 +362,8 @@ def run_rust_case(item):
 
         hooks = {"verif_in": lambda m, i: ins.get(i, 0), "verif_out": vout, "verif_load": lambda m, a: 0, "verif_store": lambda m, a, v: None}
         m = interp.Machine(img, hooks)
+        m.array_mode = True
+        m.merge_tables = True
         m.STEP_LIMIT = 20_000_000
         m.symbolic_alloc = dict(RS_ALLOC)
         m.run(img.mod.functions["harness_mem"], [])
